@@ -163,7 +163,7 @@ def rand_formula(rng, names, depth, pconst=0.06):
     return (rng.choice(BINOPS), rand_formula(rng, names, depth - 1, pconst), rand_formula(rng, names, depth - 1, pconst))
 
 
-LABEL_POOL = ['a', 'b', 'c', 'n', 's', 'ac', 'and', 'or', 'neg', 'imp', 'andy', 'cv', 'c1', 'xor1', 'iff', 'v', 'f', 'x10', 'x9', 'x2', 'B', 'Z', 'a1', 'a10', 'a2', '007', '7']
+LABEL_POOL = ['a', 'b', 'c', 'n', 's', 'ac', 'and', 'or', 'neg', 'imp', 'andy', 'cv', 'c1', 'xor1', 'iff', 'v', 'f', 'x10', 'x9', 'x2', 'B', 'Z', 'a1', 'a10', 'a2', '007', '7', 'true', 'false', 'not']
 
 
 def rand_adf(rng, n, depth, quoted=0.1, locality=None):
@@ -181,6 +181,25 @@ def rand_adf(rng, n, depth, quoted=0.1, locality=None):
             lo = max(0, i - locality); scope = names[lo:i + locality + 1]
         else: scope = names
         acs[nm] = rand_formula(rng, scope, rng.randint(0, depth))
+    return names, acs
+
+
+def rand_adf_colliding(rng, n):
+    """quoted labels that contain the separator characters of the text format next to their own parts as labels: a, b, c, "a,b", "b,c", ...
+    (two different formulas can then have the same rendering without quotes)"""
+    base = ['a', 'b', 'c', 'd'][:max(2, min(4, n // 2))]
+    names = list(base)
+    for x in base:
+        for y in base:
+            if len(names) < n and x != y and '%s,%s' % (x, y) not in names: names.append('%s,%s' % (x, y))
+    while len(names) < n: names.append('v%d' % len(names))
+    acs = {}
+    for nm in names:
+        x, y, z = rng.sample(names, 3) if len(names) >= 3 else (names[0], names[-1], names[0])
+        acs[nm] = rng.choice([(rng.choice(['and', 'or']), ('atom', x), ('atom', y)), ('and', ('atom', x), ('or', ('atom', y), ('atom', z))), ('neg', ('atom', x)), ('atom', x)])
+    # one guaranteed colliding pair
+    if 'a,b' in names and 'b,c' in names and len(names) >= 5:
+        acs[names[0]] = ('and', ('atom', 'a,b'), ('atom', 'c')); acs[names[1]] = ('and', ('atom', 'a'), ('atom', 'b,c'))
     return names, acs
 
 
